@@ -49,6 +49,12 @@ Theorem C22_at_affixes : forall oifs pre post e es last,
 Proof. exact quoted_at_affixes. Qed.
 Print Assumptions C22_at_affixes.
 
+(* "a$@b": a list expansion next to other text inside one pair of double quotes *)
+Theorem C22_at_siblings : forall oifs a b e es last,
+  word_fields oifs [PDblMix [DVal a; DList (e :: es ++ [last]); DVal b]] = (a ++ e) :: es ++ [last ++ b].
+Proof. exact quoted_at_siblings. Qed.
+Print Assumptions C22_at_siblings.
+
 (* non-vacuity: IFS=:  and the word  $x  with x='a::b:'  gives a '' b ; pre$x"q"$y with
    IFS=" :" *)
 Open Scope N_scope.
@@ -64,6 +70,9 @@ Proof. vm_compute. split; reflexivity. Qed.
 Example C22_ex_empty_ifs_list : (* IFS=; set -- "a b" "" c; $@ *)
   in_scope [PUList [[97;32;98];[];[99]]] = true /\
   word_fields (Some []) [PUList [[97;32;98];[];[99]]] = [[97;32;98];[99]].
+Proof. vm_compute. split; reflexivity. Qed.
+Example C22_ex_dbl_vanishes : (* set --; x=; "$x$@" is no field, "$x" is one *)
+  word_fields None [PDblMix [DVal []; DList []]] = [] /\ word_fields None [PDblMix [DVal []]] = [[]].
 Proof. vm_compute. split; reflexivity. Qed.
 Example C22_ex_unset_ifs : word_fields None [PExp [32;97;9;10;98;32]] = [[97];[98]].
 Proof. vm_compute. reflexivity. Qed.
